@@ -177,6 +177,12 @@ pub fn oracle_c04(a: &AMod, b: &AMod) -> Vec<(String, String)> {
 
 /// names of the input must re-appear attached to the renumbered entity
 pub fn oracle_c13(a: &AMod, b: &AMod) -> Vec<(String, String)> {
+    oracle_c13_with(a, b, false)
+}
+
+/// `extra_ok`: the configuration adds names of its own (synthetic names for anonymous items); then
+/// only the entities the input names are looked at, and there the input's name has to be found
+pub fn oracle_c13_with(a: &AMod, b: &AMod, extra_ok: bool) -> Vec<(String, String)> {
     let mut f = vec![];
     let Some(Ok(na)) = a.names() else { return f };
     let nb = match b.names() {
@@ -196,6 +202,9 @@ pub fn oracle_c13(a: &AMod, b: &AMod) -> Vec<(String, String)> {
     let mut want: Vec<(u32, String)> = last(&na.funcs).into_iter().filter_map(|(i, n)| r.funcs.get(&i).map(|o| (*o, n))).collect();
     want.sort();
     let mut got = nb.funcs.clone();
+    if extra_ok {
+        got.retain(|(i, _)| want.iter().any(|(j, _)| j == i));
+    }
     got.sort();
     if want != got {
         f.push(("C13:function-names".into(), format!("expected {:?}, output has {:?}", want, got)));
@@ -205,6 +214,9 @@ pub fn oracle_c13(a: &AMod, b: &AMod) -> Vec<(String, String)> {
         let mut w: Vec<(u32, String)> = last(x).into_iter().collect();
         w.sort();
         let mut g = y.clone();
+        if extra_ok {
+            g.retain(|(i, _)| w.iter().any(|(j, _)| j == i));
+        }
         g.sort();
         if w != g {
             f.push((format!("C13:{}-names", what), format!("expected {:?}, output has {:?}", w, g)));
@@ -214,7 +226,7 @@ pub fn oracle_c13(a: &AMod, b: &AMod) -> Vec<(String, String)> {
     // and every named signature must keep some name
     for (j, n) in &nb.types {
         let s = sig(b, *j);
-        if !na.types.iter().any(|(i, m)| m == n && sig(a, *i) == s) {
+        if !extra_ok && !na.types.iter().any(|(i, m)| m == n && sig(a, *i) == s) {
             f.push(("C13:type-name-migrated".into(), format!("output type {} ({}) is named {:?}, which no input type of that signature carried", j, s, n)));
         }
     }
@@ -253,6 +265,10 @@ pub fn oracle_c13(a: &AMod, b: &AMod) -> Vec<(String, String)> {
         let out_names: HashMap<u32, String> = nb.locals.iter().find(|(f2, _)| *f2 == fo).map(|(_, m)| m.iter().cloned().collect()).unwrap_or_default();
         let in_names: HashMap<u32, String> = m.iter().cloned().collect();
         for (li, name) in &in_names {
+            // (with synthetic names on, walrus documents that an empty local name counts as no name)
+            if extra_ok && name.is_empty() {
+                continue;
+            }
             if let Some(lo) = lmap.get(li) {
                 total_named_used += 1;
                 match out_names.get(lo) {
@@ -263,7 +279,7 @@ pub fn oracle_c13(a: &AMod, b: &AMod) -> Vec<(String, String)> {
             }
         }
         // no migration: every output local name belongs to the input local that maps there
-        for (lo, n2) in &out_names {
+        for (lo, n2) in out_names.iter().filter(|_| !extra_ok) {
             let src: Vec<&u32> = lmap.iter().filter(|(_, o)| *o == lo).map(|(i, _)| i).collect();
             if !src.iter().any(|i| in_names.get(i) == Some(n2)) {
                 f.push(("C13:local-name-migrated".into(), format!("function {} output local {} is named {:?} but no input local mapping there has that name", fo, lo, n2)));
@@ -335,13 +351,15 @@ pub fn run_wasm(case: &str, wasm: &[u8], stats: &mut Stats) {
             ("DWARF on", |c| { c.generate_dwarf(true); }),
             ("producers off, name section asked for explicitly", |c| { c.generate_producers_section(false).generate_name_section(true); }),
             ("strict validation off", |c| { c.strict_validate(false); }),
+            ("synthetic names for anonymous items", |c| { c.generate_synthetic_names_for_anonymous_items(true); }),
         ] {
             let mut cfg = walrus::ModuleConfig::new();
             mk(&mut cfg);
+            let extra_ok = vname.starts_with("synthetic");
             match out::catch(|| cfg.parse(wasm).map(|mut m| m.emit_wasm())) {
                 Ok(Ok(bv)) => {
                     if let Ok(dv) = decode::decode(&bv) {
-                        for (k, msg) in oracle_c13(&a, &dv) {
+                        for (k, msg) in oracle_c13_with(&a, &dv, extra_ok) {
                             fails.push((k, format!("[configuration: {}] {}", vname, msg)));
                         }
                     }
